@@ -150,7 +150,13 @@ func (s *ManagedServer) dequeueSave(ctx context.Context) {
 		select {
 		case <-s.saveQueue:
 		case <-ctx.Done():
-			return
+			// When a save job and the cancellation are both ready, select picks at random.
+			// Do not drop a job that was queued before shutdown began.
+			select {
+			case <-s.saveQueue:
+			default:
+				return
+			}
 		}
 
 		// Wait for cooldown.
